@@ -38,7 +38,9 @@ ENCODING_ASSUMPTIONS = [
     "int is mathematical; // and % have floor semantics (divisor sign cases encoded)",
     "objects of model classes are immutable after __init__ (fields of abstract objects are functions of the reference); "
     "class invariants proved as postconditions of __init__ are assumed for every instance",
-    "closed world: the dynamic class of an object is one of the classes defined in the repository sources",
+    "closed world: the dynamic class of an object is one of the instantiable (non-abstract ABC) classes defined in the "
+    "repository sources",
+    "len() of every list / tuple is below 2**63 (CPython Py_ssize_t)",
     "no reflection / monkey-patching on functions under contract; single thread; unbounded recursion depth and memory",
     "docstrings, _logger.* and warnings.* calls are dropped by the extraction; message arguments of raise statements "
     "are evaluated only as far as the engine can (their text is not part of any contract)",
